@@ -51,6 +51,9 @@ type Scenario struct {
 
 func (s Scenario) specs() []txn.Spec {
 	specs := []txn.Spec{{Name: "alpha", Slot: s.Slot, Profile: sopx.Profile(s.Profile)}}
+	if s.Shape == "S0-first-root" {
+		specs = append(specs, txn.Spec{Name: "fresh", Slot: 4, Profile: sopx.Profile(s.Profile), Empty: true})
+	}
 	if s.Shape == "S9-multistore" {
 		specs = append(specs, txn.Spec{Name: "beta", Slot: 4, Profile: sopx.Separate})
 	}
